@@ -693,17 +693,19 @@ def parseKeypoints (v : Val) : Except Err (Option (List Rat)) :=
         | _ => te) xs
       if !strictlyIncreasing ys then ve else pure (some ys)
 
-/-- `all(length > 0 for length in lengths)` (fix e215d06), short-circuiting like Python: the first
-non-positive length is a `ValueError`, a `None` / string entry reached before it a `TypeError` -/
+/-- `all(isinstance(length, numbers.Real) and length > 0 for length in lengths)` (fixes e215d06 and its
+follow-up): the first entry that is not a positive real number is a `ValueError` -/
 def lengthsLoop : List Item → Except Err (List Rat)
   | [] => .ok []
-  | .a x :: rest => do
-    let r ← x.toNum
-    if r > 0 then do
-      let rs ← lengthsLoop rest
-      pure (r :: rs)
-    else ve
-  | .s _ _ :: _ => te
+  | .a x :: rest =>
+    match x.toNum with
+    | .ok r =>
+      if r > 0 then do
+        let rs ← lengthsLoop rest
+        pure (r :: rs)
+      else ve
+    | .error _ => ve
+  | .s _ _ :: _ => ve
 
 /-- `lengths is not None and not tf.is_tensor(lengths)`: every length must be positive -/
 def parseLengths (v : Val) : Except Err (Option (List Rat)) :=
